@@ -6,11 +6,12 @@ import Q1t.Proofs.SimDemo
 import Q1t.Proofs.SimComplex
 import Q1t.Proofs.SimDischargeAll
 import Q1t.Proofs.SimHypsComplex
+import Q1t.Proofs.SimStabCapstone
 /-!
 # C02 — every shot is a possible run and holds the exact conditional state
 
 Property theorems only; proofs are in `Q1t/Proofs/Sim{Basic,Alg,Gate,Reg,Measure,Ranges,Shots,Exec,Rel,
-BitsAll,Refine,MeasAll,Embed1,BasisAll,ResetAll,Capstone,Extras,BasisGates,Discharge,Demo,Complex,UnitaryNorm,DischargeAll,HypsComplex}.lean`.
+BitsAll,Refine,MeasAll,Embed1,BasisAll,ResetAll,Capstone,Extras,BasisGates,Discharge,Demo,Complex,UnitaryNorm,DischargeAll,HypsComplex,Stab,StabRefine,StabAll,StabCapstone}.lean`.
 
 Objects.  `Sim.execOps vecBackend` is the executable model of `Circuit::do_execute_with` on the vector
 backend (`Q1t/Model/Sim.lean`; tied to the code by correspondence (A) of `tools/check.py C02`): a term of the
@@ -312,6 +313,59 @@ theorem histogram_gf_unconditional {R : Type} [CommRing R] {n N : Nat} (ord : Li
       (execOps (vecBackend (α := ℂ) (P := ℝ)) (VecState.new n N) (List.replicate N 0) ops)
       (Q1t.Sim.SimGF.shotProd x) = Q1t.Sim.SimGF.gfShot n toR x ops (Q1t.Sim.SimGF.ket0 n, 0) ^ N :=
   Q1t.Sim.histogram_gf_unconditional ord hord toR x ops hF hN
+
+/-! ## the stabilizer backend, relative to the tableau contract -/
+
+section stab
+variable {α P : Type} [CommRing α] [Amp α P] [SimAmp α]
+variable {n : Nat} {valid : GateTerm P → List Nat → Prop} {nz : α → Prop}
+
+open Q1t.Tableau in
+/-- **stab_shot_refinement** — the per-shot statement for the model of `StabilizerState`
+(`Q1t/Model/StabSim.lean`: ranges of `(count, tableau)`, `measure_into` splitting a range on a random
+classification, `reset` forcing every tableau, `measure_all_into` qubit by qubit), **relative to the explicit
+hypothesis `TableauOK St n ph conjOf valid`** (`Q1t/Proofs/SimStabRefine.lean`): for an abstract relation `St t ψ`
+("tableau `t` describes the vector `ψ` of non-zero weight"), `Tab.new` describes `|0…0⟩`, `St` is closed under
+invertible scalars, `Tab.applyGate` on a valid instance follows the embedded documented unitary, a `deterministic v`
+classification of `Tab.measure` means `P_v ψ = ψ`, a `random` one that both outcomes have non-zero weight and that
+`Tab.collapse` follows the projector, and `Tab.reset` follows one of the two branches of the reference reset.
+These are the statements of C03; they are NOT proved here.
+
+Under it: for all `n`, `N`, all circuits over every operation kind EXCEPT `peek_all` (D5, witnessed below) with
+`measure_all` naming `n` distinct classical bits, every draw list (`sb`, `sc` arbitrary: every binomial of the
+stabilizer backend has parameter ½), after a successful run the counts sum to `N` = register length = number of
+per-shot tableaux, and every shot's outcome record has a candidate `φ` of non-zero weight in the forced replay that
+is described by the shot's tableau.  In particular the FORCED reset of the pinned code (D4: a reset of a qubit with
+a random classification always takes the branch "outcome 0") is still a possible run for every single shot —
+D4 is a defect of the distribution (C01), not of C02. -/
+theorem stab_shot_refinement {St : Tab → List α → Prop} {half : α} {ph : List Nat}
+    {conjOf : GateTerm P → Tab.Conj} {sb : Nat → α → Nat → Prop} {sc : List α → Nat → Prop}
+    (hT : TableauOK St n ph conjOf valid) (ha : LawfulAmp α P) (hs : LawfulSim α P nz)
+    {nonzero : List α → Bool} (hnzb : NonzeroOK nonzero) {N : Nat} (ops : List (COp P))
+    (hv : OpsValid valid ops) (hok : ∀ op ∈ ops, StabOpOK n op) (hloc : COp.resetAll ∈ ops → LocalWeights α)
+    {ds ds' : List Draw} {s' : StabState} {c' : List Nat}
+    (h : Runs sb sc (execOps (stabBackend half ph conjOf) (StabState.new n N) (List.replicate N 0) ops) ds
+      (.ok (s', c')) ds') :
+    (s'.counts.sum = N ∧ c'.length = N ∧ (shotTabs s').length = N) ∧
+    ∃ regs, RunsTrace (stabBackend half ph conjOf) sb sc (StabState.new n N) (List.replicate N 0) ops ds regs s' c' ds' ∧
+      ∀ i, i < N → ∃ outs t w φ, ShotRecord regs i outs ∧ (shotTabs s')[i]? = some t ∧ c'[i]? = some w ∧
+        (φ, w) ∈ replay n nonzero ops outs [(ket0 n, 0)] ∧ St t φ ∧ ∃ u : α, normSqSum φ * u = 1 :=
+  Q1t.Sim.stab_shot_refinement hT ha hs hnzb ops hv hok hloc h
+
+open Q1t.Tableau in
+/-- the range logic alone, with no contract: which tableau operation hits the tableau of each shot of a
+`measure_into` and which bit is written for it (`MeasStep`: the deterministic outcome with the tableau kept, or a
+random classification with the tableau collapsed on the shot's outcome) -/
+theorem stab_measure_per_shot {half : α} {ph : List Nat} {sb : Nat → α → Nat → Prop} {sc : List α → Nat → Prop}
+    {N : Nat} {s : StabState} {c : List Nat} {q cbit : Nat} (hwf : WFT n N s c)
+    {ds ds' : List Draw} {s' : StabState} {c' : List Nat}
+    (h : Runs sb sc (StabState.measureInto half ph s q cbit c) ds (.ok (s', c')) ds') :
+    q < n ∧ cbit < 64 ∧ WFT n N s' c' ∧
+    ∀ (i : Nat) (t : Tab) (w : Nat), (shotTabs s)[i]? = some t → c[i]? = some w →
+      ∃ o t', MeasStep ph q t (o, t') ∧ c'[i]? = some (setBitTo w cbit o) ∧ (shotTabs s')[i]? = some t' :=
+  stab_measureInto_runs hwf h
+
+end stab
 
 /-! ## non-vacuity -/
 
